@@ -588,6 +588,9 @@ fn render_files(rng: &mut Rng, doc: &TsDoc, features: &mut BTreeSet<String>) -> 
         let k = rng.below(nfiles);
         files[k].items.push(it.clone());
     }
+    // the parser rejects an empty document: a file that received no definition is dropped
+    files.retain(|f| !f.items.is_empty());
+    let nfiles = files.len();
     features.insert(format!("files:{nfiles}"));
     let noisy = rng.chance(1, 4);
     if noisy {
